@@ -62,6 +62,11 @@ def drive(task):
         if task["part"] == 0:
             for src in pdasrc.SPECIAL:
                 yield from events(src, task["n"])
+        if task["part"] in (1, 2, 3):
+            rng = random.Random(task["part"])
+            for src in pdasrc.chain_srcs(rng, 4 if task["stride"] > 6 else 12):
+                src = dict(src)
+                yield from events(src, src.pop("n", task["n"]))
     elif task["kind"] == "markers":
         for i in range(task["count"]):
             yield from events({"kind": "pda_markers", "seed": task["seed"] * 100000 + i}, task["n"])
